@@ -7,6 +7,8 @@
 		g_msg_freed      = nondet_size_t(); \
 		g_msg_freed_at_j = nondet_ptr();    \
 		g_free_calls     = nondet_size_t(); \
+		g_alloc_ok       = nondet_size_t(); \
+		__CPROVER_assume(g_alloc_ok < ((size_t) 1 << 40)); \
 		__CPROVER_assume(g_msg_freed < ((size_t) 1 << 40)); \
 		__CPROVER_assume(g_free_calls < ((size_t) 1 << 40)); \
 	} while (0)
